@@ -135,7 +135,11 @@ structure Env where
   load2 : LoadRes                                 -- reload under lock
   refresh : Session → RefreshRes
   saveOK : Bool                                   -- sessionStore.Save returned nil
-  validate : Session → Bool                       -- provider.ValidateSession
+  /-- `Verifier.Verify(idToken)`: go-oidc signature/issuer/expiry + this repo's audience check
+      (Model/Token) -/
+  tokenVerifies : Str → Bool
+  /-- the `nonce` claim of an ID token: `none` = claim extraction failed, `some []` = absent/empty -/
+  nonceClaim : Str → Option Str
   clearOK : Bool                                  -- sessionStore.Clear returned nil
   emailOK : Str → Bool                            -- p.Validator
   /-- appDirector.GetRedirect on the extracted inputs: rd, X-Auth-Request-Redirect, isForwarded,
@@ -263,8 +267,19 @@ structure StoredOut where
   refreshCalls : Nat      -- provider refresh calls made
   deriving DecidableEq, Repr
 
-def validateSessionStep (env : Env) (s : Session) : Bool :=
-  !s.isExpired env.now && env.validate s
+/-- `encryption.HashNonce` incl. its nil case (an empty nonce decodes to nil) -/
+def hashNonceM (env : Env) (n : Str) : Str := if n.isEmpty then [] else env.hash n
+
+/-- `OIDCProvider.ValidateSession`: verify the ID token, then (unless skipped) the nonce claim
+    must hash-match the session's nonce -/
+def Env.validate (env : Env) (cfg : Cfg) (s : Session) : Bool :=
+  env.tokenVerifies s.idToken &&
+    (cfg.skipNonce || match env.nonceClaim s.idToken with
+      | none => false
+      | some c => hashNonceM env s.nonce == c)
+
+def validateSessionStep (cfg : Cfg) (env : Env) (s : Session) : Bool :=
+  !s.isExpired env.now && env.validate cfg s
 
 /-- `refreshSessionIfNeeded` after the lock has been obtained and the session reloaded as `s`. -/
 def refreshUnderLock (cfg : Cfg) (env : Env) (s : Session) : StoredOut :=
@@ -274,19 +289,19 @@ def refreshUnderLock (cfg : Cfg) (env : Env) (s : Session) : StoredOut :=
     | .refreshed s' =>
       let s'' := { s' with createdAt := some env.now }
       -- a failed Save is only logged; validation decides
-      if validateSessionStep env s'' then
+      if validateSessionStep cfg env s'' then
         { session := some s'', isErr := false, saved := if env.saveOK then some s'' else none, refreshCalls := 1 }
       else { session := none, isErr := true, saved := if env.saveOK then some s'' else none, refreshCalls := 1 }
     | .notImplemented =>
       let s'' := { s with createdAt := some env.now }
-      if validateSessionStep env s'' then
+      if validateSessionStep cfg env s'' then
         { session := some s'', isErr := false, saved := if env.saveOK then some s'' else none, refreshCalls := 1 }
       else { session := none, isErr := true, saved := if env.saveOK then some s'' else none, refreshCalls := 1 }
     | .notRefreshed =>
-      if validateSessionStep env s then { session := some s, isErr := false, saved := none, refreshCalls := 1 }
+      if validateSessionStep cfg env s then { session := some s, isErr := false, saved := none, refreshCalls := 1 }
       else { session := none, isErr := true, saved := none, refreshCalls := 1 }
     | .err =>
-      if validateSessionStep env s then { session := some s, isErr := false, saved := none, refreshCalls := 1 }
+      if validateSessionStep cfg env s then { session := some s, isErr := false, saved := none, refreshCalls := 1 }
       else { session := none, isErr := true, saved := none, refreshCalls := 1 }
 
 def getValidatedSession (cfg : Cfg) (env : Env) : StoredOut :=
@@ -366,27 +381,37 @@ def stateSubstring (cfg : Cfg) (state : Str) : Str :=
 
 def encodeStateRaw (nonce redirect : Str) : Str := nonce ++ ':' :: redirect
 
+/-- PKCE: `none` = failure (500), `some none` = PKCE off, `some (some (challenge, method))` -/
+def startChallenge (cfg : Cfg) (env : Env) : Option (Option (Str × Str)) :=
+  if cfg.pkceMethod.isEmpty then some none
+  else if !env.rngOK then none
+  else match env.challenge cfg.pkceMethod env.freshVerifier with
+    | some c => some (some (c, cfg.pkceMethod))
+    | none => none
+
+def startCSRF (cfg : Cfg) (env : Env) : CSRF :=
+  { state := env.freshState, nonce := env.freshNonce,
+    verifier := if cfg.pkceMethod.isEmpty then [] else env.freshVerifier }
+
+def startExtra (extra : List (Str × Str)) : Option (Str × Str) → List (Str × Str)
+  | some (c, m) => extra ++ [("code_challenge".toList, c), ("code_challenge_method".toList, m)]
+  | none => extra
+
+def startRedirect (cfg : Cfg) (env : Env) (r : Req) (extra : List (Str × Str)) (pre : List CookieOp)
+    (ch : Option (Str × Str)) : Resp :=
+  let csrf := startCSRF cfg env
+  { status := 302, kind := .idpRedirect,
+    location := env.loginURL (env.oauthRedirectURI cfg r) (encodeStateRaw (env.hash csrf.state) (env.redirectOf cfg r))
+                  (env.hash csrf.nonce) (startExtra extra ch),
+    cookies := pre ++ [.setCSRF csrf] }
+
 def doOAuthStart (cfg : Cfg) (env : Env) (r : Req) (extra : List (Str × Str)) (pre : List CookieOp) : Resp :=
-  let chal : Option (Option (Str × Str)) :=
-    if cfg.pkceMethod.isEmpty then some none
-    else if !env.rngOK then none
-    else match env.challenge cfg.pkceMethod env.freshVerifier with
-      | some c => some (some (c, cfg.pkceMethod))
-      | none => none
-  match chal with
+  match startChallenge cfg env with
   | none => errorPage 500 pre
   | some ch =>
     if !env.rngOK then errorPage 500 pre
     else if env.redirectErr then errorPage 400 pre
-    else
-      let verifier := if cfg.pkceMethod.isEmpty then [] else env.freshVerifier
-      let csrf : CSRF := { state := env.freshState, nonce := env.freshNonce, verifier := verifier }
-      let extra' := match ch with
-        | some (c, m) => extra ++ [("code_challenge".toList, c), ("code_challenge_method".toList, m)]
-        | none => extra
-      let state := encodeStateRaw (env.hash csrf.state) (env.redirectOf cfg r)
-      let url := env.loginURL (env.oauthRedirectURI cfg r) state (env.hash csrf.nonce) extra'
-      { status := 302, kind := .idpRedirect, location := url, cookies := pre ++ [.setCSRF csrf] }
+    else startRedirect cfg env r extra pre ch
 
 def signInPage (env : Env) (code : Nat) (pre : List CookieOp) : Resp :=
   if !env.clearOK then errorPage 500 (pre ++ [.clearSession])
@@ -452,42 +477,46 @@ def decodeStateRaw (state : Str) : Option (Str × Str) :=
   | (n, some rd) => some (n, rd)
   | (_, none) => none
 
+/-- callback, after the CSRF cookie `csrf` (named `name`) was loaded and the code redeemed into `s0` -/
+def callbackFinish (cfg : Cfg) (env : Env) (name nonce appRedirect code : Str) (csrf : CSRF) (s0 : Session) : Resp :=
+  let s1 : Session := { s0 with createdAt := s0.createdAt.or (some env.now),
+                                expiresOn := s0.expiresOn.or (some ((s0.createdAt.getD env.now) + cfg.cookieExpire)) }
+  let rw := some (code, csrf.verifier)
+  if !env.enrichOK s1 then { (errorPage 500) with redeemedWith := rw }
+  else
+    let ck := [CookieOp.clearCSRF name]
+    if hashNonceM env csrf.state != nonce then { (errorPage 403 ck) with redeemedWith := rw }
+    else
+      let s2 := { s1 with nonce := csrf.nonce }
+      if !env.validate cfg s2 then { (errorPage 403 ck) with redeemedWith := rw }
+      else if !(env.emailOK s2.email && groupsOK cfg.allowedGroups s2.groups) then { (errorPage 403 ck) with redeemedWith := rw }
+      else if !env.saveOK then { (errorPage 500 ck) with redeemedWith := rw }
+      else
+        { status := 302, kind := .redirect,
+          location := if env.isValidRedirect appRedirect then appRedirect else "/".toList,
+          cookies := ck ++ [.setSession s2], redeemedWith := rw }
+
+/-- callback, after the state parameter was split into (nonce, appRedirect) -/
+def callbackWithState (cfg : Cfg) (env : Env) (r : Req) (nonce appRedirect : Str) : Resp :=
+  let name := env.csrfCookieName (stateSubstring cfg nonce)
+  match env.csrfByName name with
+  | none => errorPage 403
+  | some csrf =>
+    let code := formGet r.form "code".toList
+    if code.isEmpty then errorPage 500
+    else match env.redeem code csrf.verifier (env.oauthRedirectURI cfg r) with
+      | .err => { (errorPage 500) with redeemedWith := some (code, csrf.verifier) }
+      | .ok s0 => callbackFinish cfg env name nonce appRedirect code csrf s0
+
 /-- OAuthCallback. `decodeB64` is the lenient `base64.RawURLEncoding.DecodeString` whose error
     is ignored (the decoded prefix is used) when `encodeState` is on. -/
 def callbackHandler (cfg : Cfg) (env : Env) (r : Req) (decodeB64 : Str → Str) : Resp :=
   if !(formGet r.form "error".toList).isEmpty then errorPage 403
   else
     let stateParam := formGet r.form "state".toList
-    let toParse := if cfg.encodeState then decodeB64 stateParam else stateParam
-    match decodeStateRaw toParse with
+    match decodeStateRaw (if cfg.encodeState then decodeB64 stateParam else stateParam) with
     | none => errorPage 500
-    | some (nonce, appRedirect) =>
-      let name := env.csrfCookieName (stateSubstring cfg nonce)
-      match env.csrfByName name with
-      | none => errorPage 403
-      | some csrf =>
-        let code := formGet r.form "code".toList
-        if code.isEmpty then errorPage 500
-        else match env.redeem code csrf.verifier (env.oauthRedirectURI cfg r) with
-          | .err => { (errorPage 500) with redeemedWith := some (code, csrf.verifier) }
-          | .ok s0 =>
-            let s1 : Session := { s0 with createdAt := s0.createdAt.or (some env.now),
-                                          expiresOn := s0.expiresOn.or (some ((s0.createdAt.getD env.now) + cfg.cookieExpire)) }
-            if !env.enrichOK s1 then { (errorPage 500) with redeemedWith := some (code, csrf.verifier) }
-            else
-              let ck := [CookieOp.clearCSRF name]
-              if env.hash csrf.state != nonce then { (errorPage 403 ck) with redeemedWith := some (code, csrf.verifier) }
-              else
-                let s2 := { s1 with nonce := csrf.nonce }
-                if !env.validate s2 then { (errorPage 403 ck) with redeemedWith := some (code, csrf.verifier) }
-                else
-                  let rd := if env.isValidRedirect appRedirect then appRedirect else "/".toList
-                  if env.emailOK s2.email && groupsOK cfg.allowedGroups s2.groups then
-                    if env.saveOK then
-                      { status := 302, kind := .redirect, location := rd, cookies := ck ++ [.setSession s2],
-                        redeemedWith := some (code, csrf.verifier) }
-                    else { (errorPage 500 ck) with redeemedWith := some (code, csrf.verifier) }
-                  else { (errorPage 403 ck) with redeemedWith := some (code, csrf.verifier) }
+    | some (nonce, appRedirect) => callbackWithState cfg env r nonce appRedirect
 
 /-! ### the whole pipeline -/
 
